@@ -331,7 +331,9 @@ def derive_event(rng):
         # a grown source: the last label arrives by append, so the derivation starts from a stale cache
         ix = cls(py(labels[:-1]))
         ix.append(P.dec(labels[-1]))
-    route, arg = rand_derive(rng, labels, absent, kind)
+    # (label keys that name an ABSENT label are left to C04 on a map-less source: there they are read as positions, the known finding
+    #  C04-auto-index-labels-read-as-positions - a thorough run met it here through the slice 1:1 on the one-label automatic index)
+    route, arg = rand_derive(rng, labels, [] if getattr(ix, '_map', True) is None else absent, kind)
     src = {'labels': labels, 'cls': cls.__name__}
     if route == 'setop':
         op, other = arg
